@@ -59,6 +59,7 @@ var _ = reserr.ErrNotFound
 //@   ensures[C17] m != nil && o != nil ==> result == m && m.Status == ite(old(o.Status) != nil, old(o.Status), old(m.Status)) &&
 //@       m.Header == ite(old(m.Header) == nil, old(o.Header), old(m.Header))
 //@   assert[C17] MergeHeader#1: arg0 == old(m.Header) && arg1 == old(o.Header) && arg0 != nil
+//@   assigns m.Status, m.Header, elems(m.Header), elemsof([]string), alloc()
 //@   safety[C15]
 
 // Value equality: only values of the same kind can be equal; references are equal exactly
